@@ -4,6 +4,7 @@
 import SplVerif.Lemmas.ParserTables
 import SplVerif.Spec.Grammar
 import SplVerif.Lemmas.ParseConform
+import SplVerif.Lemmas.ParseConformStmt
 
 namespace Spl.C04
 
@@ -31,6 +32,31 @@ theorem expression_conforms (ctx : Parse.Ctx) {fs : Nat} {ts rest : Grammar.Toks
       .ok { s with pos := sp.last + 1 } (Grammar.relExpr s.refPos e) ∧
     e.info.range = ⟨s.pos, sp.last + 1⟩ ∧ ParseConform.At ctx { s with pos := sp.last + 1 } rest :=
   let ⟨a, _, _, b, c⟩ := ParseConform.expression_conforms ctx hs hat
+  ⟨a, b, c⟩
+
+/-- **Type expressions are parsed into the derivation the grammar mandates** (named types and nested
+    `array [n] of …` at any depth, comments anywhere; all token arrays, positions and parser states). -/
+theorem type_expression_conforms (ctx : Parse.Ctx) {fs : Nat} {ts rest : Grammar.Toks} {t : TypeExpr} {sp : Grammar.Span}
+    {s : Parse.St} {fm : Nat} (hs : Grammar.typeExpr ⟨ctx.toks⟩ fs ts = some (t, sp, rest)) (hat : ParseConform.At ctx s ts)
+    (hfm : ts.length + 1 ≤ fm) :
+    Parse.parseTypeExpr ctx fm none s = .ok { s with pos := sp.last + 1 } (Grammar.relType s.refPos t) ∧
+    t.info.range = ⟨s.pos, sp.last + 1⟩ ∧ ParseConform.At ctx { s with pos := sp.last + 1 } rest :=
+  let ⟨a, _, _, b, c⟩ := ParseConform.typeExpr_conf ctx fs ts t sp rest hs fm s hat hfm
+  ⟨a, b, c⟩
+
+/-- **Statements are parsed into the derivation the grammar mandates**: the empty statement, `if` with
+    and without `else` (the `else` belongs to the nearest `if`), `while`, blocks, calls with any
+    number of arguments and assignments to indexed variables, nested to any depth, with comments
+    anywhere.  Whenever the grammar specification derives a statement `t` at a position, `Statement::parse`
+    of the model succeeds there with enough fuel (`2 · remaining tokens + 2`; the model uses
+    `2 · all tokens + 16`), consumes exactly the statement's tokens, reports nothing and returns `t` in
+    the implementation's range convention. -/
+theorem statement_conforms (ctx : Parse.Ctx) {fs : Nat} {ts rest : Grammar.Toks} {t : Stmt} {sp : Grammar.Span}
+    {s : Parse.St} {fm : Nat} (hs : Grammar.stmt ⟨ctx.toks⟩ fs ts = some (t, sp, rest)) (hat : ParseConform.At ctx s ts)
+    (hfm : 2 * ts.length + 2 ≤ fm) :
+    Parse.parseStmt ctx fm none s = .ok { s with pos := sp.last + 1 } (Grammar.relStmt s.refPos t) ∧
+    t.info.range = ⟨s.pos, sp.last + 1⟩ ∧ ParseConform.At ctx { s with pos := sp.last + 1 } rest :=
+  let ⟨a, _, _, b, c⟩ := (ParseConform.sconf_all ctx fs).stmt ts t sp rest hs fm s hat hfm
   ⟨a, b, c⟩
 
 /-- the entry conditions hold at the start of every token array -/
